@@ -24,7 +24,8 @@ META = {
         "documented exception type; (6) at least one tract: every path of "
         "parse_chunk ends in the copy_all fallback test or in _parse_copyall, "
         "the chunker produces at least one block (its helpers run only on a "
-        "non-empty match list), config keyword dicts name real parameters."),
+        "non-empty match list), config keyword dicts name real parameters."
+        ' Also: definite assignment of every local in the parser package (one accepted loop-witness idiom), staged optional components are only formatted, raise sites are conditional (guards incl. early-exit clauses).'),
     'assumptions': [
         "methods of str/list/dict on well-typed receivers do not raise; re does not raise on valid patterns; recursion depth",
     ],
